@@ -22,6 +22,17 @@ EXC = int(sl("exc", 0))
 VER = sl("ver", "1.0")
 TURNS = int(sl("turns", 2))
 FIX = sl("fix", {})
+SHIPPED = int(sl("shipped", 0))  # 1: the output rail is the shipped library flow `self check output` (its LLM-calling action replaced by a recording action)
+SHIPPED_REFUSAL = "I'm sorry, I can't respond to that."
+SHIPPED_EXC = "blocked by the 'self check output' flow"
+if SHIPPED:
+    N = 1
+    from nemoguardrails.rails.llm import config as _cfgmod
+    import os as _os
+
+    _root = _os.environ.get("VERIF_REPO", "/repo")
+    if _root not in _cfgmod.colang_path_dirs:
+        _cfgmod.colang_path_dirs.append(_root)  # lets `import nemoguardrails.library...` resolve in Colang 2.x
 
 
 def _fixed(**kw):
@@ -62,6 +73,10 @@ define flow greeting
   bot express greeting
 ''' + "".join(_out_v1(i) for i in range(1, N + 1))
 YAML_V1 = "enable_rails_exceptions: %s\nrails:\n  output:\n    flows:\n" % ("True" if EXC else "False") + "".join("      - out %d\n" % i for i in range(1, N + 1))
+if SHIPPED:
+    COLANG_V1 = COLANG_V1.split("define bot refuse out")[0]
+    YAML_V1 = ("enable_rails_exceptions: %s\nprompts:\n  - task: self_check_output\n    content: check {{ bot_response }}\nrails:\n  output:\n    flows:\n      - self check output\n"
+               % ("True" if EXC else "False"))
 
 
 W = ["zero", "one", "two", "three"]
@@ -97,11 +112,45 @@ flow answering
 '''
 
 
+if SHIPPED:
+    COLANG_V2 = '''
+import core
+import guardrails
+import nemoguardrails.library.self_check.output_check
+
+flow output rails $output_text
+  self check output
+
+flow main
+  activate answering
+
+flow answering
+  user said something as $u
+  $reply = await ProduceReplyAction()
+  bot say $reply
+'''
+
+
 class Rec:
     log = []
     verdicts = []
     turn = 0
     replies = []
+
+
+async def _shipped_check(context=None, **kw):
+    """Replaces the LLM-calling action of the shipped rail; sees the text through the context like the original."""
+    Rec.log.append(("out1", (context or {}).get("bot_message")))
+    v = conc(Rec.verdicts[Rec.turn][0], 0, 1)
+    return v == 0
+
+
+def _refusal(i):
+    return SHIPPED_REFUSAL if SHIPPED else "REFUSED_OUT%d" % i
+
+
+def _exc_marker(i):
+    return SHIPPED_EXC if SHIPPED else "out %d" % i
 
 
 def _mk_v1(i):
@@ -132,11 +181,14 @@ async def _produce_reply(**kw):
 
 
 if VER == "1.0":
-    APP, LLM = rails.build(COLANG_V1, YAML_V1, {"out%d" % i: _mk_v1(i) for i in range(1, N + 1)})
+    APP, LLM = rails.build(COLANG_V1, YAML_V1, {"self_check_output": _shipped_check} if SHIPPED else {"out%d" % i: _mk_v1(i) for i in range(1, N + 1)})
 else:
-    acts = {"Out%dAction" % i: _mk_v2(i) for i in range(1, N + 1)}
+    acts = {"self_check_output": _shipped_check} if SHIPPED else {"Out%dAction" % i: _mk_v2(i) for i in range(1, N + 1)}
     acts["ProduceReplyAction"] = _produce_reply
-    APP, LLM = rails.build(COLANG_V2, "enable_rails_exceptions: %s\n" % ("True" if EXC else "False"), acts, colang_version="2.x")
+    _y2 = "enable_rails_exceptions: %s\n" % ("True" if EXC else "False")
+    if SHIPPED:
+        _y2 += "prompts:\n  - task: self_check_output\n    content: check {{ bot_response }}\n"
+    APP, LLM = rails.build(COLANG_V2, _y2, acts, colang_version="2.x")
     rails.install_handover()
 
 USER = ["hello", "tell me something"]
@@ -152,6 +204,7 @@ def checked_v1(t0: int, a0: int, a1: int, t1: int, b0: int, b1: int, t2: int, c0
     pre: 0 <= t0 <= 1 and 0 <= a0 <= 2 and 0 <= a1 <= 2 and 0 <= t1 <= 1 and 0 <= b0 <= 2 and 0 <= b1 <= 2 and 0 <= t2 <= 1 and 0 <= c0 <= 2 and 0 <= c1 <= 2
     pre: (N > 1 or (a1 == 0 and b1 == 0 and c1 == 0)) and (TURNS > 2 or (t2 == 0 and c0 == 0 and c1 == 0))
     pre: _fixed(t0=t0, a0=a0, t1=t1)
+    pre: not SHIPPED or (a0 <= 1 and b0 <= 1 and c0 <= 1)
     post: _
     """
     global LAST_INFO
@@ -199,9 +252,9 @@ def checked_v1(t0: int, a0: int, a1: int, t1: int, b0: int, b1: int, t2: int, c0
                     if _llm_text(t) in str(reply.get("content")):
                         why = "rejected LLM text appears in the response"
                     elif EXC:
-                        if reply.get("role") != "exception" or ("out %d" % (k + 1)) not in str(reply.get("content")):
+                        if reply.get("role") != "exception" or _exc_marker(k + 1) not in str(reply.get("content")):
                             why = "expected the rail exception of out %d, got %r" % (k + 1, reply)
-                    elif reply != {"role": "assistant", "content": "REFUSED_OUT%d" % (k + 1)}:
+                    elif reply != {"role": "assistant", "content": _refusal(k + 1)}:
                         why = "expected the refusal of out %d, got %r" % (k + 1, reply)
                 elif reply != {"role": "assistant", "content": cur}:
                     why = "expected %r, got %r" % (cur, reply)
@@ -258,9 +311,9 @@ def checked_v2(a0: int, a1: int, b0: int, b1: int, c0: int, c1: int) -> bool:
                 why = "rejected text appears in the response"
             elif EXC:
                 excs = [e for m in res.response for e in (m.get("events") or []) if str(e.get("type", "")).endswith("Exception")]
-                if len(excs) != 1 or ("out %d" % (k + 1)) not in str(excs[0].get("message")):
+                if len(excs) != 1 or _exc_marker(k + 1) not in str(excs[0].get("message")):
                     why = "expected the rail exception of out %d, got %r" % (k + 1, res.response)
-            elif texts != ["REFUSED_OUT%d" % (k + 1)]:
+            elif texts != [_refusal(k + 1)]:
                 why = "expected the refusal of out %d, got %r" % (k + 1, res.response)
         elif texts != [text]:
             why = "expected %r, got %r" % (text, res.response)
@@ -299,9 +352,9 @@ SPEC = {
     "property": "C02",
     "functions": FUNCTIONS,
     "bounds": "Colang 1.0: 1 (thorough 2) output rails with symbolic verdicts accept/reject/rewrite, per turn a symbolic choice between a predefined bot message and an LLM-generated one, "
-              "2 (thorough 3) turns of one conversation with independent verdicts per turn, refusal by bot message or rail exception. Colang 2.x + library/guardrails.co: 1 (thorough 2) output "
+              "2 (thorough 3) turns of one conversation with independent verdicts per turn, refusal by bot message or rail exception; plus the shipped `self check output` flows (v1 and v2) with their action replaced. Colang 2.x + library/guardrails.co: 1 (thorough 2) output "
               "rails accept/reject, 2 (thorough 3) turns on one conversation state.",
-    "outside": "bot text is a concrete marker per turn; LLM-based rails are represented by actions with the same flow shape; longer conversations; streaming",
+    "outside": "bot text is a concrete marker per turn; library rails other than `self check output` (gotitai, hallucination, fact checking have the same flow shape); LLM-based rails are represented by actions with the same flow shape; longer conversations; streaming",
     "assumptions": ["FakeLLM / StubVec / VLoop as in C01", "v2: `handover` stub passes the State object between turns by reference; the turn's bot text comes from a stub action standing for the LLM"],
     "explanation": "Oracle per turn: for an LLM-generated message the output rails invoked are exactly 1..k+1 in order on the (progressively rewritten) text; the reply is the final text, or the refusal / rail "
                    "exception of the rejecting rail, and never contains a rejected text; this must hold in every turn whatever the earlier turns' verdicts were.",
@@ -313,6 +366,10 @@ SPEC = {
         {"fn": "checked_v1", "tiers": ("thorough",), "slices": [{"n": 2, "exc": e, "ver": "1.0", "turns": 2, "fix": {"t0": t, "a0": a, "t1": t1}} for e in (0, 1) for t in (0, 1) for a in (0, 1, 2) for t1 in (0, 1)]
             + [{"n": 1, "exc": e, "ver": "1.0", "turns": 3, "fix": {"t0": t, "a0": a, "t1": t1}} for e in (0, 1) for t in (0, 1) for a in (0, 1, 2) for t1 in (0, 1)],
          "tcond": 3000, "tpath": 180, "bound": "v1, 2 rails x 2 turns; 1 rail x 3 turns"},
+        {"fn": "checked_v1", "tiers": ("quick", "thorough"), "slices": [{"n": 1, "exc": e, "ver": "1.0", "turns": 2, "shipped": 1, "fix": {"t0": 1, "a0": a, "t1": 1}} for e in (0, 1) for a in (0, 1)],
+         "tcond": 900, "tpath": 120, "bound": "v1, shipped `self check output` flow (action stubbed), 2 LLM-generated turns"},
+        {"fn": "checked_v2", "tiers": ("quick", "thorough"), "slices": [{"n": 1, "exc": e, "ver": "2.x", "turns": 2, "shipped": 1, "fix": {"a0": a}} for e in (0, 1) for a in (0, 1)],
+         "tcond": 900, "tpath": 180, "bound": "v2, shipped `self check output` flow (action stubbed), 2 turns"},
         {"fn": "checked_v2", "tiers": ("quick",), "slices": [{"n": 1, "exc": e, "ver": "2.x", "turns": 2, "fix": {"a0": a}} for e in (0, 1) for a in (0, 1)], "tcond": 900, "tpath": 180, "bound": "v2, 1 rail, 2 turns",
          "smoke": [{"slice": {"n": 1, "exc": 0, "ver": "2.x", "turns": 3}, "args": dict(a0=1, a1=0, b0=0, b1=0, c0=1, c1=0)},
                    {"slice": {"n": 2, "exc": 1, "ver": "2.x", "turns": 2}, "args": dict(a0=0, a1=1, b0=0, b1=0, c0=0, c1=0)}]},
